@@ -2,7 +2,7 @@
    (Gen/C12_Timeutils.v, regenerated from /repo on every run) computes the same function
    as the hand-written model (Model/C12.v), for every argument and every world. *)
 From Coq Require Import String.
-Require Import OV.Base.Bytes OV.Base.Py.
+Require Import OV.Base.Bytes OV.Base.Py OV.Base.PyFloat.
 Require Import OV.Model.C12_Calendar OV.Model.C12_Prim OV.Model.C12 OV.Gen.C12_Timeutils.
 Open Scope Z_scope.
 
@@ -38,10 +38,20 @@ Ltac mcase :=
 
 Lemma advance_time_seconds_equiv : forall s w, gen_advance_time_seconds s w = advance_time_seconds s w.
 Proof.
-  intros s w. unfold gen_advance_time_seconds, advance_time_seconds, bindM, ret.
-  change (gen_advance_time_delta (td_of_days_seconds 0 s) w) with (advance_time_delta (td_of_days_seconds 0 s) w).
-  destruct (advance_time_delta (td_of_days_seconds 0 s) w) as [[[]|e] w']; reflexivity.
+  intros s w. unfold gen_advance_time_seconds, advance_time_seconds, bindM, lift, ret.
+  destruct (td_of_days_seconds 0 s) as [u|e]; [|reflexivity].
+  change (gen_advance_time_delta u w) with (advance_time_delta u w).
+  destruct (advance_time_delta u w) as [[[]|e] w']; reflexivity.
 Qed.
+
+Lemma fixture_setUp_equiv : forall o w, gen_fixture_setUp o w = fixture_setUp o w.
+Proof. reflexivity. Qed.
+Lemma fixture_cleanUp_equiv : forall w, gen_fixture_cleanUp w = fixture_cleanUp w.
+Proof. reflexivity. Qed.
+Lemma fixture_advance_time_delta_equiv : forall d w, gen_fixture_advance_time_delta d w = fixture_advance_time_delta d w.
+Proof. reflexivity. Qed.
+Lemma fixture_advance_time_seconds_equiv : forall s w, gen_fixture_advance_time_seconds s w = fixture_advance_time_seconds s w.
+Proof. intros. apply advance_time_seconds_equiv. Qed.
 
 Lemma is_older_than_equiv : forall t s w, gen_is_older_than t s w = is_older_than t s w.
 Proof.
@@ -69,11 +79,13 @@ Proof.
   change gen_parse_isotime with parse_isotime. change gen_utcnow with utcnow.
   destruct t as [d|str_]; unfold bindM, lift, ret, dt_le.
   - destruct (utcnow false w) as [[now|e] w']; [|reflexivity].
-    destruct (dt_add_td now (td_of_seconds s)) as [soon|e]; [|reflexivity].
+    destruct (td_of_seconds s) as [delta|e]; [|reflexivity].
+    destruct (dt_add_td now delta) as [soon|e]; [|reflexivity].
     rewrite normalize_time_equiv. unfold lift. repeat mcase.
   - destruct (parse_isotime str_ w) as [[d|e] w0]; [|reflexivity].
     destruct (utcnow false w0) as [[now|e] w']; [|reflexivity].
-    destruct (dt_add_td now (td_of_seconds s)) as [soon|e]; [|reflexivity].
+    destruct (td_of_seconds s) as [delta|e]; [|reflexivity].
+    destruct (dt_add_td now delta) as [soon|e]; [|reflexivity].
     rewrite normalize_time_equiv. unfold lift. repeat mcase.
 Qed.
 
@@ -130,7 +142,10 @@ Theorem gen_utcnow_ts_micro w t : ov w = One t -> in_range (wall t) = true ->
 Proof. intros H R. rewrite utcnow_ts_equiv. exact (utcnow_ts_micro w t H R). Qed.
 
 Definition gen_run_adv (a : adv) : M unit :=
-  match a with ByDelta u => gen_advance_time_delta u | BySeconds u => gen_advance_time_seconds u end.
+  match a with
+  | ByDelta u => gen_advance_time_delta u | BySeconds x => gen_advance_time_seconds x
+  | FxByDelta u => gen_fixture_advance_time_delta u | FxBySeconds x => gen_fixture_advance_time_seconds x
+  end.
 Fixpoint gen_run_advs (l : list adv) : M unit :=
   match l with [] => ret tt | a :: r => bindM (gen_run_adv a) (fun _ => gen_run_advs r) end.
 
@@ -138,7 +153,9 @@ Lemma run_advs_equiv l : forall w, gen_run_advs l w = run_advs l w.
 Proof.
   induction l as [|a r IH]; intros w; [reflexivity|].
   cbn [gen_run_advs run_advs]. unfold bindM.
-  assert (E : gen_run_adv a w = run_adv a w) by (destruct a; [reflexivity|apply advance_time_seconds_equiv]).
+  assert (E : gen_run_adv a w = run_adv a w).
+  { destruct a; cbn [gen_run_adv run_adv]; try reflexivity;
+      [apply advance_time_seconds_equiv | apply fixture_advance_time_seconds_equiv]. }
   rewrite E. destruct (run_adv a w) as [[[]|e] w']; [apply IH|reflexivity].
 Qed.
 
@@ -151,28 +168,51 @@ Theorem gen_advance_then_utcnow l w t b : ov w = One t -> prefixes_ok (wall t) l
     (Ok (mkDt (wall t + sum_us l) (tz t)), set_ov w (One (mkDt (wall t + sum_us l) (tz t)))).
 Proof. intros H P. unfold bindM. rewrite (gen_advance_exact l w t H P). reflexivity. Qed.
 
-Theorem gen_advance_overflow w t delta : ov w = One t -> in_range (wall t + delta) = false ->
-  gen_advance_time_delta delta w = (Exn OverflowError, w) /\ gen_advance_time_seconds delta w = (Exn OverflowError, w).
+Theorem gen_advance_overflow w t x delta : ov w = One t -> td_of_days_seconds 0 x = Ok delta -> in_range (wall t + delta) = false ->
+  gen_advance_time_delta delta w = (Exn OverflowError, w) /\ gen_advance_time_seconds x w = (Exn OverflowError, w).
 Proof.
-  intros H R. split.
+  intros H Hx R. split.
   - exact (advance_overflow w t delta H R).
-  - rewrite advance_time_seconds_equiv, advance_seconds_is_delta. exact (advance_overflow w t delta H R).
+  - rewrite advance_time_seconds_equiv, (advance_seconds_is_delta x delta w Hx). exact (advance_overflow w t delta H R).
 Qed.
 
-Theorem gen_older_iff w now t d s :
-  ov w = One now -> tz now = None -> resolves w t d -> normalizable d = true ->
-  exists b, gen_is_older_than t s w = (Ok b, w) /\ (b = true <-> wall now - instant d > s).
+(* the fixture's methods ARE the module functions *)
+Theorem gen_fixture_is_module :
+  (forall o w, gen_fixture_setUp o w = gen_set_time_override o w) /\
+  (forall w, gen_fixture_cleanUp w = gen_clear_time_override w) /\
+  (forall d w, gen_fixture_advance_time_delta d w = gen_advance_time_delta d w) /\
+  (forall x w, gen_fixture_advance_time_seconds x w = gen_advance_time_seconds x w).
+Proof. repeat split. Qed.
+
+(* list overrides *)
+Fixpoint gen_utcnow_n (n : nat) : M (list dt) :=
+  match n with O => ret [] | S k => bindM (gen_utcnow false) (fun d => bindM (gen_utcnow_n k) (fun r => ret (d :: r))) end.
+Theorem gen_utcnow_pops_in_order : forall n l w, ov w = Many l -> (n <= length l)%nat ->
+  gen_utcnow_n n w = (Ok (firstn n l), set_ov w (Many (skipn n l))).
+Proof. exact utcnow_pops_in_order. Qed.
+Theorem gen_advance_list_noop w l delta : ov w = Many l ->
+  gen_advance_time_delta delta w =
+    (if forallb (fun t => in_range (wall t + delta)) l then Ok tt else Exn OverflowError, w).
+Proof. exact (advance_list_noop w l delta). Qed.
+Theorem gen_aware_override_raises w now z t d s :
+  ov w = One now -> tz now = Some z -> resolves w t d -> normalizable d = true ->
+  gen_is_older_than t s w = (Exn TypeError, w) /\ gen_is_newer_than t s w = (Exn TypeError, w).
+Proof. intros. rewrite is_older_than_equiv, is_newer_than_equiv. eapply older_aware_override_raises; eassumption. Qed.
+
+Theorem gen_older_iff w now t d s su :
+  ov w = One now -> tz now = None -> resolves w t d -> normalizable d = true -> td_of_seconds s = Ok su ->
+  exists b, gen_is_older_than t s w = (Ok b, w) /\ (b = true <-> wall now - instant d > su).
 Proof. intros. rewrite is_older_than_equiv. eapply older_iff; eassumption. Qed.
 
-Theorem gen_newer_iff w now t d s :
-  ov w = One now -> tz now = None -> resolves w t d -> normalizable d = true ->
-  exists b, gen_is_newer_than t s w = (Ok b, w) /\ (b = true <-> instant d - wall now > s).
+Theorem gen_newer_iff w now t d s su :
+  ov w = One now -> tz now = None -> resolves w t d -> normalizable d = true -> td_of_seconds s = Ok su ->
+  exists b, gen_is_newer_than t s w = (Ok b, w) /\ (b = true <-> instant d - wall now > su).
 Proof. intros. rewrite is_newer_than_equiv. eapply newer_iff; eassumption. Qed.
 
-Theorem gen_soon_iff w now t d s :
-  ov w = One now -> tz now = None -> resolves w t d -> normalizable d = true ->
-  in_range (wall now + s) = true ->
-  exists b, gen_is_soon t s w = (Ok b, w) /\ (b = true <-> instant d <= wall now + s).
+Theorem gen_soon_iff w now t d s su :
+  ov w = One now -> tz now = None -> resolves w t d -> normalizable d = true -> td_of_seconds s = Ok su ->
+  in_range (wall now + su) = true ->
+  exists b, gen_is_soon t s w = (Ok b, w) /\ (b = true <-> instant d <= wall now + su).
 Proof. intros. rewrite is_soon_equiv. eapply soon_iff; eassumption. Qed.
 
 Lemma marshall_unmarshall_equiv o w : bindM (gen_marshall_now o) gen_unmarshall_time w = bindM (marshall_now o) unmarshall_time w.
